@@ -115,6 +115,19 @@ def classify(tool, argv, r, fmt=None):
     fmt = fmt or out_format(tool, argv)
     out = r['out'].decode(errors='replace')
     err = r['err'].decode(errors='replace')
+    a_ = [str(x) for x in argv]
+    for i_, t_ in enumerate(a_):
+        # the formula goes to the file named by -o: that file is the output (the format may follow its extension)
+        if t_ in ('-o', '--output') and i_ + 1 < len(a_) and a_[i_ + 1] != '-' and os.path.isfile(a_[i_ + 1]) and not a_[i_ + 1].startswith(('/dev/', '/proc/')):
+            try:
+                out = out + open(a_[i_ + 1], errors='replace').read()
+            except OSError:
+                pass
+            if a_[i_ + 1].endswith('.tex'):
+                fmt = 'latex'
+            elif a_[i_ + 1].endswith('.opb'):
+                fmt = 'opb'
+            break
     if r['timeout']:
         return 'timeout', ''
     if 'Traceback (most recent call last)' in err:
@@ -309,6 +322,20 @@ def run(ctx):
             f.write(text)
     os.mkdir(os.path.join(base, 'adir'))
     fjobs = []
+    # well-formed files with unusual NAMES (braces, blanks, percent signs, non-ASCII), and unusual save targets
+    odd = ['cyc{v2}.kthlist', 'K{}.kthlist', 'a b.kthlist', '100%s.kthlist', 'pyr{h=2}.kthlist', '\u00fc\u03b1.kthlist', "q'uote.kthlist", 'x.kthlist.kthlist', '-dash.kthlist']
+    for nm in odd:
+        with open(os.path.join(base, nm), 'w') as f:
+            f.write(files['ok.kthlist'])
+        pth = os.path.join(base, nm)
+        fjobs += [('cnfgen', ['peb', pth]), ('cnfgen', ['kcolor', '2', 'kthlist', pth]), ('cnfgen', ['-of', 'opb', 'stone', '2', pth]), ('kthlist2pebbling', ['-i', pth])]
+    with open(os.path.join(base, 'o{dd} name.cnf'), 'w') as f:
+        f.write(files['ok.cnf'])
+    fjobs += [('cnfgen', ['dimacs', os.path.join(base, 'o{dd} name.cnf')]), ('cnfshuffle', ['-i', os.path.join(base, 'o{dd} name.cnf')])]
+    for target in ['/no/such/dir/g.gml', os.path.join(base, 'adir'), '/dev/full', os.path.join(base, 'missing', 'deeper', 'g.kthlist'), os.path.join(base, 's{a}ved.kthlist'), '/proc/version']:
+        fjobs += [('cnfgen', ['kcolor', '2', 'gnp', '5', '.5', 'save', target]), ('cnfgen', ['php', 'glrd', '3', '3', '2', 'save', 'kthlist', target]),
+                  ('cnfgen', ['peb', 'pyramid', '2', 'save', target]), ('pbgen', ['kcolor', '2', 'complete', '3', 'save', target]),
+                  ('cnfgen', ['php', '3', '2', '-T', 'xorcomp', 'glrd', '6', '3', '2', 'save', target]), ('cnfgen', ['-o', target if not target.endswith('.kthlist') else target + '.out{1} x.cnf', 'php', '3', '2'])]
     for name in list(files) + ['adir', 'nonexistent.kthlist']:
         p = os.path.join(base, name)
         ext = name.split('.')[-1]
